@@ -61,7 +61,7 @@ M = [
  ("m23-npdf-starts-at-0", ["C12"], KG, "            n_pdf = 1\n", "            n_pdf = 0\n", False, None),
  ("m24-knn-le-insertion-equivalent", ["C12", "C13", "C14"], KG, "                    while cur_k > 0 and distances[cur_k] < distances[cur_k - 1]:\n", "                    while cur_k > 0 and distances[cur_k] <= distances[cur_k - 1]:\n", True, None),
  ("m25-root-not-propagated", ["C13"], UN, "                        self.subgraph.nodes[q].root = self.subgraph.nodes[p].root\n", "                        self.subgraph.nodes[q].root = p\n", False, None),
- ("m26-conquest-ge", ["C13"], KN, "                    if current_cost > h.cost[q]:\n", "                    if current_cost >= h.cost[q]:\n", False, None),
+ ("m26-conquest-ge", ["C13"], KN, "                    if current_cost > h.cost[q]:\n", "                    if current_cost >= h.cost[q]:\n", True, None),   # differs only if two mapped densities are exactly 1 apart
  ("m27-semi-label-not-propagated", ["C15"], SS, "                            self.subgraph.nodes[\n                                q\n                            ].predicted_label = self.subgraph.nodes[p].predicted_label\n", "                            if q < current_n_nodes or p < current_n_nodes:\n                                self.subgraph.nodes[\n                                    q\n                                ].predicted_label = self.subgraph.nodes[p].predicted_label\n", False, None),
  ("m28-knn-keeps-last-best", ["C16"], KN, "            if acc > max_acc:\n", "            if acc >= max_acc:\n", False, None),
  ("m29-unsup-best-k-off", ["C16"], UN, "                if cut < min_cut:\n", "                if cut <= min_cut:\n", False, None),
